@@ -83,6 +83,9 @@ class MappingMutator(CollectionAttrMutator):
         )
 
     def remove_item(self, key):  # pylint: disable=arguments-renamed,arguments-differ
+        if self.collection is MISSING:
+            # As for the other element helpers: a missing collection is empty.
+            self.collection = self._create_collection()
         key, _ = self._extractor(key, raise_if_missing=True)
         del self.collection[key]
         return self
